@@ -90,7 +90,10 @@ def pregen():
     import importlib, os, sys
     from vlib import core
     sys.path.insert(0, os.path.join(core.ROOT, "translators"))
-    return importlib.import_module("dispatch_arms").regenerate()
+    st = dict(dispatch_arms=importlib.import_module("dispatch_arms").regenerate())
+    # the allocations of the result buffers (translators/alloc_arms.py -> Gen/AllocArms.v, Proofs/AllocArmsP.v)
+    st.update(importlib.import_module("armlib").pregen(PROP, [("alloc_arms", "theories/Proofs/AllocArmsP.vo")]))
+    return st
 
 
 # ---- literal pools --------------------------------------------------------
